@@ -65,7 +65,7 @@ CHECKS = {
          "1e-6..1e6. Dynamic analysis of executions, not a proof.", "5 C18"),
  "C19": ("configuration-history monitor: outcome vectors of ==/hash/in/intersection under perturbations scaled to the live eps; get_eps/get_sig_figures call-site spies",
          "Random setter histories with the eps/sig-figures relation checked after each call; at each final eps in 1e-12..1e-5 a "
-         "catalogue object of each of 8 kinds in axis and Pythagorean frames is compared with a copy perturbed by eps/1000 or "
+         "catalogue object of each of 10 kinds in 9 axis and Pythagorean frames (three with a zero leading direction / normal component) is compared with a copy perturbed by eps/1000 or "
          "eps/100 (must be ==, hash-equal, mutually containing, coincident) and Points/Vectors 4 eps apart must differ; previous "
          "setting restored and re-evaluated. The spies list which comparison sites read the live setting.", "5 C19"),
  "C07": ("history monitor: per-step probes of receiver and return value against a freshly constructed object and the exact translate; invariant hooks on live objects",
@@ -99,6 +99,7 @@ CHECKS = {
  "C15": ("exception monitor over a catalogue of invalid-input classes; exhaustive enumeration of unsupported operand-kind pairs; invariant hook on anything returned",
          "Every invalid class of the property instantiated over positions/poses/magnitudes (exact and 1e-12-degenerate) must "
          "raise; a return is a violation (for tolerance-degenerate input only if the returned object fails its invariant hook); "
+         "open face sets in ten forms incl. one face replaced by a copy of another (V, E, F and incidence totals of the closed body); "
          "all 521 unsupported (function, kind, kind) combinations over 11 operand kinds and move() with non-Vector arguments must "
          "raise NotImplementedError / ValueError / TypeError and never return a value or an exception instance.", "5 C15"),
  "C20": ("purity / frame monitor: full public-attribute snapshots of every live object around every step of random query / mutation / copy histories",
